@@ -4,6 +4,9 @@
 #define VERIF_FIXTURE_ITER_POS_HPP
 namespace fixture {
 
+template <typename It> constexpr auto distance(It a, It b) { return b - a; }
+template <typename It> constexpr auto next(It a, decltype(a - a) n = 1) { return a + n; }
+
 // IT4: uses *src, then steps down, stops at first -> *first is never visited
 template <typename BidiIt>
 constexpr auto shift_down_scan(BidiIt first, BidiIt last, BidiIt dest) -> void
@@ -34,6 +37,24 @@ constexpr auto last_not_space(Char const* s, unsigned long n) -> unsigned long
         }
     }
     return static_cast<unsigned long>(-1);
+}
+
+// BISECT: after a successful probe the window length is reduced by step instead of step + 1: the window reaches past last
+template <typename It, typename Pred>
+constexpr auto bad_partition_point(It first, It last, Pred p) -> It
+{
+    auto count = distance(first, last);
+    while (count > 0) {
+        auto const step = count / 2;
+        auto const mid  = next(first, step);
+        if (p(*mid)) {
+            first = next(mid);
+            count -= step;
+        } else {
+            count = step;
+        }
+    }
+    return first;
 }
 
 } // namespace fixture
